@@ -1,4 +1,5 @@
 import MithrilModel.DbVerify
+import MithrilModel.NameOrder
 /-!
 # C10 — A restored Cardano database is accepted only if every file is the certified one
 
@@ -208,5 +209,83 @@ example :
     verify natNames [(30, 11), (40, 12), (50, 13)]
       (some [(0, .file 1), (30, .file 11), (40, .file 12), (50, .file 13), (99, .dir)]) (.range 1 1) 1 false
       = .accepted := by decide
+
+end C10
+
+/-! ## the order of the names (`MithrilModel/NameOrder.lean`)
+
+`download_and_verify_digests` builds the tree over the values of a `BTreeMap<String, _>`
+(`proving.rs:244-256`): the leaves are in the STRING order of the file names (`Db.toMap`, `Names.lt`;
+the driver's instance uses `decide (a < b)` on `String`). The signed root was computed with the leaves
+in the order of `ImmutableFile: Ord` — number first, then path (`immutable_file.rs:192-196`). `<` on
+`String` / `List Char` is the lexicographic order by code point, which for these ASCII names is Rust's
+bytewise `String: Ord`. -/
+namespace C10
+
+/-- **Name order.** For immutable file numbers below 100000 the string order of the names
+`format!("{n:05}.{ext}")` (any extensions) is the order by (number, then name): the client's map order
+is the signer's order. -/
+theorem C10_name_order (a b : Nat) (ha : a < 100000) (hb : b < 100000) (e₁ e₂ : String) :
+    (NameOrder.fileNameS a e₁ < NameOrder.fileNameS b e₂ ↔
+      a < b ∨ (a = b ∧ NameOrder.fileNameS a e₁ < NameOrder.fileNameS b e₂)) :=
+  NameOrder.name_order_string a b ha hb e₁ e₂
+
+/-- the same on character lists, with the comparison of the extensions spelled out -/
+theorem C10_name_order_chars (a b : Nat) (ha : a < 100000) (hb : b < 100000) (e₁ e₂ : List Char) :
+    (NameOrder.fileName a e₁ < NameOrder.fileName b e₂ ↔ a < b ∨ (a = b ∧ e₁ < e₂)) :=
+  NameOrder.name_lt_iff a b ha hb e₁ e₂
+
+/-- `fileNameS` is the `format!`: examples, and the names the driver's instance derives from a number -/
+theorem C10_name_format :
+    NameOrder.fileNameS 7 "chunk" = "00007.chunk" ∧ NameOrder.fileNameS 99999 "primary" = "99999.primary" ∧
+    NameOrder.fileNameS 100000 "secondary" = "100000.secondary" ∧
+    (∀ n, Handlers.C10.names.trio n =
+      [NameOrder.fileNameS n "chunk", NameOrder.fileNameS n "primary", NameOrder.fileNameS n "secondary"]) :=
+  ⟨NameOrder.fileName_examples.1, NameOrder.fileName_examples.2.1, NameOrder.fileName_examples.2.2.1,
+    NameOrder.handler_trio⟩
+
+/-- **Boundary.** `"100000.chunk" < "99999.chunk"`: from 100000 on the string order is no longer the
+numeric order. -/
+theorem C10_name_order_boundary :
+    "100000.chunk" < "99999.chunk" ∧ ¬ ("99999.chunk" < "100000.chunk") ∧
+    NameOrder.fileNameS 100000 "chunk" = "100000.chunk" ∧ NameOrder.fileNameS 99999 "chunk" = "99999.chunk" ∧
+    (99999 : Nat) < 100000 :=
+  ⟨NameOrder.name_order_boundary.1, NameOrder.name_order_boundary.2.1, NameOrder.name_order_boundary.2.2.2.2.1,
+    NameOrder.name_order_boundary.2.2.2.2.2.1, by decide⟩
+
+/-- **Below the boundary the client keeps the signer's order**: a digest list with `%05d.ext` names of
+numbers below 100000, listed in the order of `ImmutableFile: Ord`, is its own map for the driver's
+instance — the rebuilt tree has the signed leaves in the signed order. -/
+theorem C10_client_order_below_boundary {δ : Type} (fs : List ((Nat × String) × δ)) (hb : ∀ f ∈ fs, f.1.1 < 100000)
+    (hs : fs.Pairwise (fun f g => f.1.1 < g.1.1 ∨
+      (f.1.1 = g.1.1 ∧ NameOrder.fileNameS f.1.1 f.1.2 < NameOrder.fileNameS g.1.1 g.1.2))) :
+    Db.toMap Handlers.C10.names (fs.map fun f => (NameOrder.fileNameS f.1.1 f.1.2, f.2)) =
+      fs.map fun f => (NameOrder.fileNameS f.1.1 f.1.2, f.2) :=
+  NameOrder.client_order_below_boundary_driver fs hb hs
+
+/-- **Beyond the boundary an honest digest list is rejected** (completeness only; soundness —
+`C10_digests_binding` — holds for every order): the digests `1 … 6` of 99999.* and 100000.*, signed in
+the order `[1,2,3,4,5,6]`, are read by the client in the order `[4,5,6,1,2,3]`. -/
+theorem C10_client_order_beyond_boundary :
+    (Db.served NameOrder.charNames NameOrder.honestBeyond 100000).map (·.2) = [4, 5, 6, 1, 2, 3] ∧
+    Db.verifyDigests NameOrder.charNames NameOrder.honestBeyond 100000 [1, 2, 3, 4, 5, 6] true = none ∧
+    Db.verifyDigests NameOrder.charNames NameOrder.honestBelow 99999 [1, 2, 3, 4, 5, 6] true
+      = some NameOrder.honestBelow :=
+  NameOrder.client_order_beyond_boundary
+
+/-- the listing `verify_cardano_database` relies on (`Db.fileLe`, `ImmutableFile: Ord`) compares the
+numbers first, for all numbers: there the string order plays no role -/
+theorem C10_listing_number_first {ν δ : Type} (N : Db.Names ν) (a b : Nat × ν × δ) :
+    (Db.fileLe N a b = true ↔ a.1 < b.1 ∨ (a.1 = b.1 ∧ N.lt b.2.1 a.2.1 = false)) :=
+  NameOrder.fileLe_iff N a b
+
+/-- non-vacuity of `C10_name_order` and `C10_client_order_below_boundary` -/
+example : (7 : Nat) < 100000 ∧ (12 : Nat) < 100000 ∧ NameOrder.fileNameS 7 "secondary" < NameOrder.fileNameS 12 "chunk" ∧
+    (let fs : List ((Nat × String) × Nat) := [((99998, "secondary"), 3), ((99999, "chunk"), 4)]
+     (∀ f ∈ fs, f.1.1 < 100000) ∧
+     fs.Pairwise (fun f g => f.1.1 < g.1.1 ∨
+       (f.1.1 = g.1.1 ∧ NameOrder.fileNameS f.1.1 f.1.2 < NameOrder.fileNameS g.1.1 g.1.2))) := by
+  refine ⟨by decide, by decide, ?_, by decide, by simp⟩
+  exact (C10_name_order 7 12 (by decide) (by decide) _ _).mpr (Or.inl (by decide))
 
 end C10
